@@ -197,7 +197,7 @@ def check_main(pid: str, tier: str) -> int:
     pending = list(jobs)
     results: Dict[str, List[Dict[str, Any]]] = {p.name: [] for p in parts}
     errors: List[str] = []
-    hard_timeout = float(os.environ.get("VERIF_HARD_TIMEOUT", "3000" if tier == "quick" else "20000"))
+    hard_timeout = float(os.environ.get("VERIF_HARD_TIMEOUT", "900" if tier == "quick" else "14000"))
 
     def reap(block: bool) -> None:
         for item in list(running):
